@@ -43,6 +43,9 @@ fn main() {
                     let e = match XEnc::deserialize(&unhex(f[2])) { Ok(e) => e, Err(_) => return "UNPARSABLE".into() };
                     let h = EncryptedHeader { encapsulation: e, encrypted_metadata: opt(f[3]) }; let ad = opt(f[4]);
                     match h.decrypt(&cc, u, ad.as_deref()) { Ok(Some(c)) => format!("OK:{}:{}", hex(&*c.secret), show(&c.metadata)), Ok(None) => "NONE".into(), Err(_) => "ERR".into() } }
+                "HDRDECS" => { let u = if f[1] == "1" { &good } else { &bad };
+                    let h = match EncryptedHeader::deserialize(&unhex(f[2])) { Ok(h) => h, Err(_) => return "UNPARSABLE".into() }; let ad = opt(f[3]);
+                    match h.decrypt(&cc, u, ad.as_deref()) { Ok(Some(c)) => format!("OK:{}:{}", hex(&*c.secret), show(&c.metadata)), Ok(None) => "NONE".into(), Err(_) => "ERR".into() } }
                 "HDRSER" => { let e = XEnc::deserialize(&unhex(f[1])).unwrap(); let h = EncryptedHeader { encapsulation: e, encrypted_metadata: opt(f[2]) };
                     let b = h.serialize().unwrap(); format!("{} {}", hex(&b), (b.len() == h.length()) as u8) }
                 "HDRDE" => match EncryptedHeader::deserialize(&unhex(f[1])) { Ok(h) => format!("{} {}", hex(&h.encapsulation.serialize().unwrap()), show(&h.encrypted_metadata)), Err(_) => "UNPARSABLE".into() },
